@@ -233,7 +233,7 @@ def _unsigned(streams):
 
 
 TAMPERS = ["hashdigit", "size", "delete", "dup", "swap", "insert", "name", "file", "glue", "gluenl", "nonl",
-           "crlf", "space", "cutfiles", "case", "nosize"]
+           "crlf", "space", "cutfiles", "case", "nosize", "trailspace", "spaces"]
 
 
 def _tamper(rng, mt, kind=None):
@@ -287,6 +287,12 @@ def _tamper(rng, mt, kind=None):
         toks[i] = toks[i] + "\n" + rng.choice(["./evil", "./e+Avil", "."])
     elif kind == "nonl":
         return out()[:-1], kind
+    elif kind == "trailspace":
+        return out() + " " * rng.choice([1, 1, 2]), kind
+    elif kind == "spaces":
+        i = rng.randint(0, len(toks))
+        for _ in range(rng.choice([2, 3])):
+            toks.insert(i, "")
     elif kind == "crlf":
         toks[-1] = toks[-1] + "\r"
     elif kind == "space":
